@@ -32,6 +32,15 @@ type LoopContract struct {
 	HasModifies bool
 }
 
+// GSet is a ghost-field update of a (trusted) method contract: after the call the
+// ghost field Field of the object denoted by Obj holds Val (evaluated in the post-state,
+// old(...) available).
+type GSet struct {
+	Field string
+	Obj   *Clause
+	Val   *Clause
+}
+
 type GhostParam struct {
 	Name string
 	Type ast.Expr
@@ -59,6 +68,8 @@ type Contract struct {
 	Havoc    bool
 	GhostVars []*Clause // By = name
 	Sets      []*Clause // By = name
+	GSets     []*GSet   // ghost field updates: gset <field> <object> = <value>
+	GHavocs   []*GSet   // ghost fields a verified function may change: ghavoc <field> <object>
 }
 
 // parseContracts reads //@ blocks from the zz_verif_contracts*.go files of a package.
@@ -195,6 +206,29 @@ func (p *Program) contractLine(pk *packages.Package, cur **Contract, line, pos s
 		}
 		cl.By = n
 		c.Sets = append(c.Sets, cl)
+	case "gset":
+		// gset <field> <object expr> = <value expr>
+		fld, r2 := splitWord(rest)
+		i := strings.Index(r2, " = ")
+		if i < 0 {
+			return fmt.Errorf("%s: gset needs '<field> <object> = <value>'", pos)
+		}
+		oc, err := mkClause(strings.TrimSpace(r2[:i]))
+		if err != nil {
+			return err
+		}
+		vc, err := mkClause(strings.TrimSpace(r2[i+3:]))
+		if err != nil {
+			return err
+		}
+		c.GSets = append(c.GSets, &GSet{Field: fld, Obj: oc, Val: vc})
+	case "ghavoc":
+		fld, r2 := splitWord(rest)
+		oc, err := mkClause(strings.TrimSpace(r2))
+		if err != nil {
+			return err
+		}
+		c.GHavocs = append(c.GHavocs, &GSet{Field: fld, Obj: oc})
 	case "falsify":
 		// falsify <expr>: quantifier-free stand-in for the requires clauses when the unit is
 		// re-run as a falsifier (contracts ignored, loops unrolled); must imply them.
@@ -793,6 +827,19 @@ func (e *evalEnv) evalCall(n *ast.CallExpr) Value {
 			case "base":
 				v := e.eval(n.Args[0])
 				return Value{T: types.Typ[types.UnsafePointer], L: []*Term{v.L[0]}}
+			case "ref":
+				// ref(x): the object identity behind a pointer or an interface value, as an int
+				v := e.eval(n.Args[0])
+				return Value{T: types.Typ[types.Int], L: []*Term{x.objRef(v)}}
+			case "ghostf":
+				// ghostf("field", obj): int-valued ghost field of the object behind obj
+				lit, ok := n.Args[0].(*ast.BasicLit)
+				if !ok {
+					e.fail(n, "ghostf: first argument must be a string literal")
+				}
+				fld := strings.Trim(lit.Value, "\"")
+				v := e.eval(n.Args[1])
+				return Value{T: types.Typ[types.Int], L: []*Term{c.Select(x.comp(e.st, ghostComp(fld), IdxSort), x.objRef(v))}}
 			case "isnil":
 				v := e.eval(n.Args[0])
 				return boolV(c.Eq(v.L[0], c.IntLit(0)))
@@ -848,8 +895,66 @@ func (e *evalEnv) evalCall(n *ast.CallExpr) Value {
 		return x.convert(scratch(e.st), v, t, token.NoPos)
 	}
 	if sel, ok := n.Fun.(*ast.SelectorExpr); ok {
+		// spec function of an imported package: pkg.Func(args)
+		if pid, ok := sel.X.(*ast.Ident); ok {
+			if _, shadow := e.vars[pid.Name]; !shadow {
+				for _, imp := range e.pkg.Imports() {
+					if imp.Name() == pid.Name {
+						if sp := x.Prog.SSA.Package(imp); sp != nil {
+							if fn := sp.Func(sel.Sel.Name); fn != nil {
+								args := make([]Value, len(n.Args))
+								for i, a := range n.Args {
+									args[i] = e.eval(a)
+									pt := fn.Signature.Params().At(i).Type()
+									if args[i].T == untypedInt {
+										args[i] = Value{T: pt, L: []*Term{c.litTo(args[i].L[0], LayoutOf(pt).Leaves[0].Sort)}}
+									}
+									args[i].T = pt
+								}
+								if ct := x.Prog.Contracts[QualName(fn)]; ct != nil && ct.Pure && len(ct.Ensures) == 0 && !x.Opt.NoContract[QualName(fn)] && !x.Opt.InlineAll && allScalar(args) {
+									return x.pureCall(ct, args, fn.Signature.Results())
+								}
+								return x.callSpec(e.st, fn, args)
+							}
+						}
+					}
+				}
+			}
+		}
 		// method call on a value: resolve statically through the method set
 		recv := e.eval(sel.X)
+		if it, ok := recv.T.Underlying().(*types.Interface); ok {
+			// interface method with a "function" contract: the same uninterpreted function the
+			// executor uses at call sites
+			for i := 0; i < it.NumMethods(); i++ {
+				m := it.Method(i)
+				if m.Name() != sel.Sel.Name {
+					continue
+				}
+				iq := ifaceMethodName(recv.T, m)
+				ct := x.Prog.Contracts[iq]
+				if ct == nil {
+					if sig, ok := m.Type().(*types.Signature); ok && sig.Recv() != nil {
+						ct = x.Prog.Contracts[ifaceMethodName(sig.Recv().Type(), m)]
+					}
+				}
+				if ct == nil || !ct.Function {
+					e.fail(n, "interface method %s needs a 'function' contract to be used in a contract expression", iq)
+				}
+				sig := m.Type().(*types.Signature)
+				args := []Value{recv}
+				for k, a := range n.Args {
+					av := e.eval(a)
+					av.T = sig.Params().At(k).Type()
+					args = append(args, av)
+				}
+				var resT types.Type = sig.Results()
+				if sig.Results().Len() == 1 {
+					resT = sig.Results().At(0).Type()
+				}
+				return x.pureCallT(ct, args, resT)
+			}
+		}
 		if fn := e.methodOf(recv.T, sel.Sel.Name); fn != nil {
 			args := []Value{recv}
 			for i, a := range n.Args {
